@@ -78,7 +78,14 @@ Outcomes(tr) ==
          : y \in Outcomes(tr.b)} : x \in Outcomes(tr.a)}
 
 \* ---- per run
-GridOf(ev) == IF ev.step = 0 THEN {ev.start} ELSE {ev.start + k * ev.step : k \in 0..((ev.end - ev.start) \div ev.step)}
+\* the grid start + k * step <= end as <<s, ns>> instants; start, end and step may carry milliseconds (startMs, endMs, stepMs),
+\* the arithmetic is done in milliseconds relative to the start second
+MsOf(ev, f) == IF f \in DOMAIN ev THEN ev[f] ELSE 0
+GridOf(ev) == LET sm == MsOf(ev, "startMs")
+                  span == (ev.end - ev.start) * 1000 + MsOf(ev, "endMs") - sm
+                  stp == ev.step * 1000 + MsOf(ev, "stepMs")
+                  At(t) == <<ev.start + (t \div 1000), (t % 1000) * 1000000>>
+              IN IF stp = 0 THEN {At(sm)} ELSE {At(sm + k * stp) : k \in 0..(span \div stp)}
 TopAt(T) == IF flat.on THEN LET outs == Outcomes(FlatTreeDev(flat.f)) IN
                  [must |-> {}, may |-> {[L |-> {}, v |-> o, sq |-> FALSE] : o \in outs \ {Absent}},
                   \* exactly one sample unless the chain may yield nothing (or its value is outside the exact arithmetic)
@@ -112,9 +119,9 @@ SortOk == IF ~IsSort \/ Cardinality(grid) # 1 \/ lastV = <<>> \/ Ev.val.t # "rat
           \* (projections of irrational values have large terms: their order is not compared exactly)
           ELSE IF ~SmallR([n |-> Ev.val.n, d |-> Ev.val.d]) \/ ~SmallR(lastV[1]) THEN TRUE
           ELSE IF expr.op = "sort" THEN ~RLt([n |-> Ev.val.n, d |-> Ev.val.d], lastV[1]) ELSE ~RLt(lastV[1], [n |-> Ev.val.n, d |-> Ev.val.d])
-PointOk == ~returned /\ Ev.t[2] = 0 /\ Ev.t[1] \in grid /\ (open \/ (FitsAt(Ev.t[1], Ev) # {} /\ SortOk))
+PointOk == ~returned /\ Ev.t \in grid /\ (open \/ (FitsAt(Ev.t, Ev) # {} /\ SortOk))
 EvPoint == IsEv("Point") /\ PointOk /\ Accept
-           /\ matched' = (IF open THEN matched ELSE matched \cup {<<Ev.t[1], PairsOf(Ev.labels)>>})
+           /\ matched' = (IF open THEN matched ELSE matched \cup {<<Ev.t, PairsOf(Ev.labels)>>})
            /\ lastV' = (IF Ev.val.t = "rat" THEN <<[n |-> Ev.val.n, d |-> Ev.val.d]>> ELSE lastV)
            /\ UNCHANGED <<recs, expr, ents, open, flat, grid, expAt, returned>>
 
